@@ -53,8 +53,7 @@ Proof.
 Qed.
 
 Section Proofs.
-  Variable init_len grow : nat.
-  Hypothesis Hinit : 0 < init_len.
+  Variable grow : nat.
 
   (* C07-M1: the window invariant *)
   Definition rinv (R : nbr) : Prop :=
@@ -70,9 +69,10 @@ Section Proofs.
   Lemma view_length R : rinv R -> length (view R) = avail R.
   Proof. intros (A & B & C & D). unfold view, avail. apply window_length; lia. Qed.
 
-  Lemma init_inv a1 a2 R : nbr_init init_len a1 a2 = Some R -> rinv R /\ view R = [] /\ r_reading R = false /\ r_imm R = false.
+  Lemma init_inv init_len a1 a2 R : 0 < init_len ->
+    nbr_init init_len a1 a2 = Some R -> rinv R /\ view R = [] /\ r_reading R = false /\ r_imm R = false.
   Proof.
-    unfold nbr_init. destruct (a1 && a2); [|discriminate]. intros H; inversion H; subst.
+    intros Hinit. unfold nbr_init. destruct (a1 && a2); [|discriminate]. intros H; inversion H; subst.
     unfold rinv, view, window; cbn. rewrite repeat_length. repeat split; auto; lia.
   Qed.
 
